@@ -15,14 +15,21 @@ TECHNIQUE = ("runtime soundness monitor on indexer.ubis/scores/ga after score_al
              "peak count with margin, handedness, cell band, pairwise lattice-equivalence) + completeness oracle against "
              "harness-simulated ground-truth grains (lattice equivalence, exactly-once matching)")
 LEVEL_TEXT = ("Exploration: scenarios of 1..8 random well-separated grains x {cubic P/I/F, hexagonal, tetragonal, orthorhombic, "
-              "monoclinic, rhombohedral} x tolerance sets; ideal g-vectors for completeness; noisy g-vectors with spurious on-ring "
-              "peaks and missing peaks for soundness; every reported orientation is judged. d* limits are bounded so that <= ~10 "
-              "rings are occupied (search cost), the all-ring-pairs search itself is kept.")
-LEVEL_NOTE = ("Trusts the harness lattice enumeration and equivalence test; 'same lattice' for two reports = integer unimodular "
-              "M within 0.5*hkl_tol/hmax; cell band 3*hkl_tol relative (3*hkl_tol rad for angles).")
+              "monoclinic, rhombohedral} x tolerance sets (incl. cosine_tol < 0 = all candidates) x wavelengths, all drawn "
+              "independently; ideal g-vectors for completeness; noisy g-vectors with spurious on-ring peaks, off-ring junk and "
+              "missing peaks for soundness; a high-order class (|hkl| to 4-6, noise 0.2-0.25 of hkl_tol, orientations generated from "
+              "the three lowest and three highest rings via rings_to_use) where a two-peak trial orientation is much worse than its "
+              "fit; multi-pass drivers (index() with two (minpks, tol) passes, do_index with several hkl_tols/fracs) with the pass "
+              "that produced each report recovered from a hook on indexer.scorethem. Every reported orientation is judged. d* limits "
+              "are bounded so that <= ~10 rings are occupied in the all-ring-pairs scenarios (search cost).")
+LEVEL_NOTE = ("Trusts the harness lattice enumeration and equivalence test. 'Same lattice': (i) two reports related by an integer "
+              "unimodular M within 0.5*hkl_tol/hmax, or (ii) two reports that both give every reflection of one simulated grain its "
+              "true (symmetry-equivalent) integer indices: |ubi.UB_true - M| < 1/(6 hmax). Cell band: for a report consistent with a "
+              "simulated grain the rigorous bound ||E||_F <= sqrt(sum_i (tol+|noise_i|)^2)/sigma_min(H) over the peaks it certainly "
+              "indexes (E = ubi.UB_true - M), else 3*hkl_tol relative. Completeness is claimed for noise-free data only.")
 
-RULE = ("a scenario = (lattice class, centring, n grains, tolerances, noise class); non-trivial = >= 2 grains or noisy/spurious "
-        "input; distinct = (lattice class, centring, ngrains, minpks, hkl_tol, cosine_tol, ds_tol, noise class, route)")
+RULE = ("a scenario = (lattice class, centring, n grains, tolerances, noise class, route); non-trivial = >= 2 grains or "
+        "noisy/spurious input; distinct = (lattice class, centring, ngrains, minpks, hkl_tol, cosine_tol, ds_tol, noise class, route)")
 
 LATT = [("cubic", "P"), ("cubic", "I"), ("cubic", "F"), ("hexagonal", "P"), ("tetragonal", "P"),
         ("orthorhombic", "P"), ("monoclinic", "P"), ("rhombohedral", "P"), ("tetragonal", "I"), ("orthorhombic", "C")]
@@ -42,11 +49,29 @@ def count_indexed(ubi, gv, tol):
     return lo, hi
 
 
-def soundness(run, V, ubis, gv_all, minpks, hkl_tol, cell, hmax, route):
-    G0 = xtal.metric(cell)
+def consistent_with(u, UB, hmax):
+    """(M, dev) when ubi u gives every reflection (|h| <= hmax) of the lattice UB the indices M.h with M a proper
+    symmetry operation of that lattice (integer, det +1, metric preserving), else None.  A pseudo-symmetric cell
+    (a ~ b) also admits integer M that do not preserve the metric: those are another (wrong) indexing, not the same
+    description, and are left to the cell-band test."""
+    M = u @ UB
+    Mi = np.round(M)
+    dev = float(np.abs(M - Mi).max())
+    if dev * 3 * max(1.0, hmax) < 0.5 and abs(np.linalg.det(Mi) - 1) < 1e-9:
+        G = UB.T @ UB                      # reciprocal metric; h -> Mi.h keeps |g| iff Mi^T G' Mi = G' with ...
+        Gi = np.linalg.inv(G)              # direct metric: rows of ubi transform with Mi
+        if np.abs(Mi @ Gi @ Mi.T - Gi).max() < 1e-9 * np.abs(Gi).max():
+            return Mi, dev
+    return None
+
+
+def soundness(run, V, ubis, passes, gv_all, cell, hmax, route, truth=None):
+    """ubis[k] was accepted while the indexer had (minpks, hkl_tol) = passes[k].  truth = (UBs, gid, noise) or None"""
     cell0 = np.array(cell, float)
+    cons = {}
     for k, u in enumerate(ubis):
         u = np.asarray(u, float)
+        minpks, hkl_tol = passes[k]
         run.count("reported_ubis_judged")
         lo, hi = count_indexed(u, gv_all, hkl_tol)
         if hi <= minpks:
@@ -59,33 +84,82 @@ def soundness(run, V, ubis, gv_all, minpks, hkl_tol, cell, hmax, route):
         dang = np.abs(c[3:] - cell0[3:])
         if rel.max() > 3 * hkl_tol + 1e-6 or dang.max() > np.degrees(3 * hkl_tol) + 1e-6:
             V(route + ":cell", "reported UBI #%d has cell %r, supplied %r (hkl_tol %g)" % (k, c.tolist(), cell, hkl_tol), k)
-    thr = 0.5 * hkl_tol / max(1.0, hmax)
+        if truth is None:
+            continue
+        UBs, gid, noise = truth
+        for g, UB in enumerate(UBs):
+            cw = consistent_with(u, UB, hmax)
+            if cw is None:
+                continue
+            Mi, dev = cw
+            cons.setdefault(g, []).append(k)
+            # what the tolerance allows for THIS report: every peak i of grain g that it certainly indexes obeys
+            # |(Mi+E).h_i + u.noise_i - Mi.h_i|_2 < tol, so |E.h_i| < tol + |u.noise_i| and
+            # ||E||_F <= ||E.H||_F / sigma_min(H).  Rows of ubi are the cell vectors: ubi = (Mi+E).A with A = inv(UB).
+            sel = np.flatnonzero(gid == g)
+            d2, ih, hh = ref_drlv2(u, gv_all[sel])
+            sure = np.asarray(d2 < np.longdouble(hkl_tol) ** 2 * 0.98, bool)
+            if sure.sum() < 3:
+                continue
+            A = np.linalg.inv(UB)
+            H = (A @ (gv_all[sel][sure] - noise[sel][sure]).T)            # true hkl, 3 x n
+            smin = np.linalg.svd(H, compute_uv=False)[-1]
+            if smin < 1e-6:
+                continue
+            un = np.sqrt(((noise[sel][sure] @ u.T) ** 2).sum(axis=1))
+            eb = float(np.sqrt(((hkl_tol + un) ** 2).sum()) / smin) * 1.02 + 1e-9
+            E = u @ UB - Mi
+            ef = float(np.sqrt((E * E).sum()))
+            run.count("cell_bound_evaluated")
+            run.setmax("max_E_over_bound", ef / eb)
+            ref = Mi @ A
+            cref = xtal.cell_from_metric(ref @ ref.T)
+            if np.abs(cref[:3] - cell0[:3]).max() > 1e-6 * cell0[:3].max() or np.abs(cref[3:] - cell0[3:]).max() > 1e-5:
+                run.count("harness_metric_preserving_M_changed_cell")       # cannot happen; counted, not judged
+            elif ef > eb:
+                V(route + ":cell-beyond-tolerance", "reported UBI #%d: |ubi.UB_true - M|_F = %.3g but the %d peaks it indexes "
+                  "within hkl_tol=%g allow at most %.3g" % (k, ef, int(sure.sum()), hkl_tol, eb), k)
+    grouped = set()
+    for g, ks in cons.items():
+        grouped.update((a, b) for a in ks for b in ks if a < b)     # judged by the truth-based rule below
     for a in range(len(ubis)):
+        thr = 0.5 * min(passes[a][1], 1e9) / max(1.0, hmax)
         for b in range(a + 1, len(ubis)):
+            if (a, b) in grouped:
+                continue
             M = np.asarray(ubis[a]) @ np.linalg.inv(np.asarray(ubis[b]))
             Mi = np.round(M)
-            if np.abs(M - Mi).max() < thr and abs(abs(np.linalg.det(Mi)) - 1) < 1e-9:
-                V(route + ":duplicate-grain", "reported UBIs #%d and #%d describe the same lattice (|M-int| %.3g)"
+            if np.abs(M - Mi).max() < min(thr, 0.5 * passes[b][1] / max(1.0, hmax)) and abs(abs(np.linalg.det(Mi)) - 1) < 1e-9:
+                kk = ":duplicate-grain" if passes[a] == passes[b] else ":duplicate-grain-across-passes"
+                V(route + kk, "reported UBIs #%d and #%d describe the same lattice (|M-int| %.3g)"
                   % (a, b, np.abs(M - Mi).max()), a)
+    # two reports that both index one simulated grain with its true integer indices describe the same lattice
+    for g, ks in cons.items():
+        if len(ks) > 1:
+            # Which mechanism?  A report is accepted only if more than `uniqueness` (>= 0.3) of the peaks it indexes are
+            # still free.  When the first report of this grain, at the tolerance of its own pass, certainly indexes
+            # >= 85 % of the grain's supplied peaks, less than 15 % of them can be free afterwards and a second
+            # acceptance cannot come from the data.  Otherwise a large part of the grain lies outside the tolerance the
+            # first report was accepted with (noise comparable with hkl_tol, or a later pass with a looser hkl_tol) and
+            # those left-over peaks seed the second report: the documented known finding.
+            UBs, gid, noise = truth
+            sel = np.flatnonzero(gid == g)
+            d2, ih, hh = ref_drlv2(np.asarray(ubis[ks[0]], float), gv_all[sel])
+            f = float(np.asarray(d2 < np.longdouble(passes[ks[0]][1]) ** 2 * 0.98, bool).mean()) if len(sel) else 0.0
+            kk = route + ":same-grain-twice" if f >= 0.85 else "same-grain-twice:leftover-peaks-outside-tolerance"
+            V(kk, "simulated grain %d is described by %d reported orientations %r (passes %r); the first "
+              "indexes %.0f%% of the grain's %d supplied peaks at its own tolerance"
+              % (g, len(ks), ks, [passes[k] for k in ks], 100 * f, len(sel)), ks[0])
+    run.count("truth_duplicate_checks", len(cons))
+    return cons
 
 
-def make_scenario(r, idx, tier):
-    kind, sym = LATT[idx % len(LATT)]
-    cell = xtal.random_cell(r, kind, 3.0, 7.5)
-    V = np.sqrt(np.linalg.det(xtal.metric(cell)))
-    mult = {"P": 1, "I": 2, "F": 4, "C": 2}[sym]
-    npts = float(r.uniform(70, 150))
-    dsmax = float((npts * mult / (4.19 * V)) ** (1 / 3.0))
-    hk, ds = sim.make_hkls(cell, sym, dsmax)
-    ngr = int([1, 2, 3, 4, 5, 8][idx % 6])
-    B = xtal.Bmat(cell)
+def well_separated(r, B, ngr):
     UBs = []
     tries = 0
     while len(UBs) < ngr and tries < 200:
         tries += 1
-        U = xtal.random_rotation(r)
-        UB = U @ B
-        # well separated: not lattice-equivalent within 0.05 to any previous
+        UB = xtal.random_rotation(r) @ B
         ok = True
         for v in UBs:
             M = np.linalg.inv(UB) @ v
@@ -93,38 +167,106 @@ def make_scenario(r, idx, tier):
                 ok = False
         if ok:
             UBs.append(UB)
+    return UBs
+
+
+def make_scenario(r, idx, mode):
+    if mode == "hiorder":
+        kind, sym, hm = [("cubic", "P", 4.2), ("cubic", "F", 6.5), ("cubic", "I", 5.2), ("tetragonal", "P", 4.2),
+                         ("hexagonal", "P", 4.2), ("orthorhombic", "P", 4.2), ("tetragonal", "I", 5.2)][idx % 7]
+        cell = xtal.random_cell(r, kind, 3.5, 4.8)
+        dsmax = hm / max(cell[:3])
+        ngr = int(r.choice([2, 3]))
+    else:
+        kind, sym = LATT[idx % len(LATT)]
+        cell = xtal.random_cell(r, kind, 3.0, 7.5)
+        V = np.sqrt(np.linalg.det(xtal.metric(cell)))
+        mult = {"P": 1, "I": 2, "F": 4, "C": 2}[sym]
+        npts = float(r.uniform(70, 150))
+        dsmax = float((npts * mult / (4.19 * V)) ** (1 / 3.0))
+        ngr = int(r.choice([1, 2, 3, 4, 5, 8]))
+    hk, ds = sim.make_hkls(cell, sym, dsmax)
+    UBs = well_separated(r, xtal.Bmat(cell), ngr)
     return kind, sym, cell, dsmax, hk, ds, UBs
 
 
-def one_scenario(run, seed, idx, mods, noisy):
+class PassLog(object):
+    """hook on indexer.scorethem: which (minpks, hkl_tol) was in force when each ubi was appended"""
+
+    def __init__(self, indexing):
+        self.indexing = indexing
+        self.passes = []
+
+    def __enter__(self):
+        log = self
+        self.orig = orig = self.indexing.indexer.scorethem
+
+        def scorethem(ix, *a, **k):
+            n0 = len(ix.ubis)
+            try:
+                return orig(ix, *a, **k)
+            finally:
+                log.passes.extend([(float(ix.minpks), float(ix.hkl_tol))] * (len(ix.ubis) - n0))
+        self.indexing.indexer.scorethem = scorethem
+        return self
+
+    def __exit__(self, *a):
+        self.indexing.indexer.scorethem = self.orig
+
+
+def one_scenario(run, seed, idx, mods, mode):
     indexing, unitcell, columnfile, parameters = mods
-    r = rng(seed, "C08", "n" if noisy else "i", idx)
-    kind, sym, cell, dsmax, hk, ds, UBs = make_scenario(r, idx, run.tier)
+    if mode is True:
+        mode = "noisy"
+    elif mode is False:
+        mode = "ideal"
+    noisy = mode != "ideal"
+    r = rng(seed, "C08", {"ideal": "i2", "noisy": "n2", "hiorder": "h"}[mode], idx)
+    kind, sym, cell, dsmax, hk, ds, UBs = make_scenario(r, idx, mode)
     ngr = len(UBs)
     nper = len(hk)
     if nper < 12:
         run.count("scenarios_skipped_few_reflections")
         return
     hkl_tol = float(r.choice([0.01, 0.02, 0.05]))
-    cosine_tol = float(r.choice([0.002, 0.005, np.cos(np.radians(90 - 0.25))]))
+    cosine_tol = float(r.choice([0.002, 0.005, np.cos(np.radians(90 - 0.25)), -1.0], p=[0.3, 0.3, 0.3, 0.1]))
     ds_tol = float(r.choice([0.002, 0.005, 0.01]))
     uniq = float(r.choice([0.5, 0.3, 0.7]))
+    wavelength = float(r.choice([0.1, 0.3, 0.7093, 1.5406]))
     minpks = int(max(3, nper * float(r.uniform(0.25, 0.5))))
-    boundary = (not noisy) and idx % 4 == 3
+    boundary = mode == "ideal" and r.random() < 0.25
     gvs = [hk @ UB.T for UB in UBs]
     gid = np.concatenate([np.full(nper, i) for i in range(ngr)])
-    gv = np.concatenate(gvs)
+    gv0 = np.concatenate(gvs)
+    noise = np.zeros_like(gv0)
     ncls = "ideal"
     hmax = float(np.abs(hk).max())
-    if noisy:
-        ncls = ["noise", "noise+spurious", "noise+missing", "spurious", "all"][idx % 5]
+    route = str(r.choice(["score_all_pairs", "index", "do_index", "index2", "do_index2"], p=[0.4, 0.15, 0.15, 0.15, 0.15]))
+    rings_to_use = None
+    if mode == "hiorder":
+        # noise sigma 0.2-0.25 of hkl_tol in hkl units (comfortably inside the tolerance for a fitted orientation) but
+        # reflections out to |h| ~ 4-6: an orientation made from two low-order peaks misses the high orders
+        ncls = "hiorder-noise"
+        hkl_tol = float(r.choice([0.05, 0.03]))
+        cosine_tol, ds_tol, uniq = 0.01, 0.01, 0.5
+        minpks = int(0.3 * nper)
+        noise = r.normal(0, float(r.uniform(0.2, 0.25)) * hkl_tol / max(cell[:3]), gv0.shape)
+        route = "score_all_pairs"
+        rings_to_use = "ends"
+    elif noisy:
+        ncls = str(r.choice(["noise", "noise+spurious", "noise+missing", "spurious", "junk", "all", "noise-wide"]))
         dmin = float(ds.min())
-        if "noise" in ncls or ncls == "all":
+        if ncls == "noise-wide":
+            # errors comparable with the (first) tolerance: many peaks of a grain lie between a tight and a loose pass
+            noise = r.normal(0, float(r.uniform(0.5, 0.9)) * hkl_tol / max(cell[:3]), gv0.shape)
+        elif "noise" in ncls or ncls == "all":
             sig = float(r.uniform(0.05, 0.3)) * hkl_tol * dmin
-            gv = gv + r.normal(0, sig, gv.shape)
+            noise = r.normal(0, sig, gv0.shape)
+    gv = gv0 + noise
+    if noisy and mode != "hiorder":
         if "missing" in ncls or ncls == "all":
             keep = r.random(len(gv)) > float(r.uniform(0.05, 0.3))
-            gv, gid = gv[keep], gid[keep]
+            gv, gid, noise = gv[keep], gid[keep], noise[keep]
         if "spurious" in ncls or ncls == "all":
             ns = int(len(gv) * float(r.uniform(0.1, 0.5)))
             v = r.normal(size=(ns, 3))
@@ -132,21 +274,33 @@ def one_scenario(run, seed, idx, mods, noisy):
             rr = r.choice(ds, ns) + r.normal(0, ds_tol / 4, ns)
             gv = np.concatenate([gv, v * rr[:, None]])
             gid = np.concatenate([gid, np.full(ns, -1)])
+            noise = np.concatenate([noise, np.zeros((ns, 3))])
+        if ncls in ("junk", "all"):
+            # peaks anywhere in the d* ball (mostly not on any ring), plus a few exact duplicates of real peaks
+            ns = int(len(gv) * float(r.uniform(0.1, 0.3)))
+            v = r.normal(size=(ns, 3))
+            v *= (dsmax * r.random(ns) ** (1 / 3.0) / np.sqrt((v * v).sum(axis=1)))[:, None]
+            dup = gv[r.integers(0, len(gv), 3)]
+            gv = np.concatenate([gv, v, dup])
+            gid = np.concatenate([gid, np.full(ns + 3, -1)])
+            noise = np.concatenate([noise, np.zeros((ns + 3, 3))])
     perm = r.permutation(len(gv))
-    gv, gid = np.ascontiguousarray(gv[perm]), gid[perm]
+    gv, gid, noise = np.ascontiguousarray(gv[perm]), gid[perm], noise[perm]
     if boundary:
         # "more than minpks" boundary: ask for exactly as many peaks as the best grain can give; nothing that indexes
         # only that many may be reported (completeness is not claimed for this class)
         counts = [count_indexed(np.linalg.inv(UB), gv, hkl_tol)[0] for UB in UBs]
-        minpks = int(max(counts)) - int(idx % 8 == 7)
+        minpks = int(max(counts)) - int(r.random() < 0.5)
         ncls = "ideal-boundary-minpks"
         run.count("boundary_minpks_scenarios")
-    route = ["score_all_pairs", "score_all_pairs", "score_all_pairs", "index", "do_index"][idx % 5]
-    if boundary and route == "do_index":
-        route = "score_all_pairs"      # do_index chooses its own minpks
-    desc = dict(index=idx, noisy=noisy, kind=kind, sym=sym, cell=cell, ngrains=ngr, peaks_per_grain=nper, npeaks=len(gv),
-                dsmax=dsmax, hkl_tol=hkl_tol, cosine_tol=cosine_tol, ds_tol=ds_tol, minpks=minpks, uniqueness=uniq,
-                noise_class=ncls, route=route)
+        if route in ("do_index", "do_index2", "index2"):
+            route = "score_all_pairs"      # do_index chooses its own minpks
+    # second, looser pass for the multi-pass drivers
+    tol2 = float(min(0.05, hkl_tol * float(r.choice([2.0, 2.5]))))
+    minpks2 = int(max(3, minpks * float(r.uniform(0.6, 1.0))))
+    desc = dict(index=idx, noisy=noisy, mode=mode, kind=kind, sym=sym, cell=cell, ngrains=ngr, peaks_per_grain=nper,
+                npeaks=len(gv), dsmax=dsmax, hkl_tol=hkl_tol, cosine_tol=cosine_tol, ds_tol=ds_tol, minpks=minpks,
+                uniqueness=uniq, noise_class=ncls, route=route, wavelength=wavelength)
 
     def V(key, what, k=None):
         run.violation(key, what, dict(desc, ubi_index=k))
@@ -154,44 +308,86 @@ def one_scenario(run, seed, idx, mods, noisy):
     uc = unitcell.unitcell(cell, sym)
     logging.disable(logging.CRITICAL)
     try:
-        with quiet(), contextlib.redirect_stderr(io.StringIO()):
+        with quiet(), contextlib.redirect_stderr(io.StringIO()), PassLog(indexing) as plog:
+            import warnings
+            warnings.simplefilter("ignore")
             if route == "score_all_pairs":
                 ix = indexing.indexer(unitcell=uc, gv=gv, cosine_tol=cosine_tol, minpks=minpks, hkl_tol=hkl_tol,
-                                      ds_tol=ds_tol, wavelength=0.1, uniqueness=uniq, max_grains=100)
-                ix.score_all_pairs()
+                                      ds_tol=ds_tol, wavelength=wavelength, uniqueness=uniq, max_grains=100)
+                if rings_to_use == "ends":
+                    ix.assigntorings()
+                    occ = sorted(int(q) for q in set(ix.ra.tolist()) if q >= 0)
+                    ix.score_all_pairs(rings_to_use=occ[:3] + occ[-3:])
+                    route = "score_all_pairs:rings_to_use"
+                else:
+                    ix.score_all_pairs()
                 ubis = [np.array(u) for u in ix.ubis]
             else:
                 cf = columnfile.colfile_from_dict({"gx": gv[:, 0].copy(), "gy": gv[:, 1].copy(), "gz": gv[:, 2].copy(),
                                                    "omega": r.uniform(-180, 180, len(gv))})
                 pr = {"cell__a": cell[0], "cell__b": cell[1], "cell__c": cell[2], "cell_alpha": cell[3],
                       "cell_beta": cell[4], "cell_gamma": cell[5], "cell_lattice_[P,A,B,C,I,F,R]": sym,
-                      "wavelength": 0.1}
+                      "wavelength": wavelength}
                 cf.parameters = parameters.parameters(**pr)
-                if route == "index":
-                    ix = indexing.index(cf, npk_tol=[(minpks, hkl_tol)], cosine_tol=cosine_tol, ds_tol=ds_tol,
+                if route in ("index", "index2"):
+                    npk_tol = [(minpks, hkl_tol)] if route == "index" else [(minpks, hkl_tol), (minpks2, tol2)]
+                    ix = indexing.index(cf, npk_tol=npk_tol, cosine_tol=cosine_tol, ds_tol=ds_tol,
                                         max_grains=100, rmulmax=None, log_level=0)
                     ubis = [np.array(u) for u in ix.ubis]
                 else:
                     uc.makerings(dsmax, ds_tol)
                     nring = len(uc.ringds)
-                    res = indexing.do_index(cf, dstol=ds_tol, hkl_tols=(hkl_tol,), fracs=(0.45,), cosine_tol=cosine_tol,
+                    tols, fr = ((hkl_tol,), (0.45,)) if route == "do_index" else ((hkl_tol, tol2), (0.6, 0.4))
+                    res = indexing.do_index(cf, dstol=ds_tol, hkl_tols=tols, fracs=fr, cosine_tol=cosine_tol,
                                             max_grains=100, forgen=list(range(min(nring, 4))), foridx=list(range(nring)))
                     grains, ix = res
                     ubis = [np.array(g.ubi) for g in grains]
-                    # do_index sets its own minpks = n_peaks_expected*frac
-                    minpks = ix.minpks
+    except (IndexError, AssertionError, ZeroDivisionError, ValueError, np.linalg.LinAlgError) as e:
+        # the search itself died: nothing is reported, so nothing of the statement can be judged
+        logging.disable(logging.NOTSET)
+        import traceback
+        tb = traceback.extract_tb(e.__traceback__)[-1]
+        run.count("indexer_exceptions")
+        run.extra.setdefault("indexer_exceptions", []).append(
+            dict(desc, error="%s: %s at %s:%d" % (type(e).__name__, e, tb.filename.split("/")[-1], tb.lineno)))
+        return
     finally:
         logging.disable(logging.NOTSET)
+    passes = list(plog.passes)
     run.count("indexer_runs")
+    if len(passes) != len(ubis):
+        run.count("pass_log_mismatch")
+        V(route + ":hook", "scorethem hook saw %d accepted orientations but %d are reported" % (len(passes), len(ubis)))
+        return
+    run.count("multi_pass_runs", int(route in ("index2", "do_index2")))
+    run.count("runs_reporting_from_two_passes", int(len(set(passes)) > 1))
+    desc["route"] = route
+    desc["passes"] = sorted(set(passes))
     run.case((kind, sym, ngr, int(minpks), hkl_tol, round(cosine_tol, 4), ds_tol, ncls, route),
              nontrivial=(ngr >= 2 or noisy), sample=dict(desc, n_reported=len(ubis)))
-    # for the do_index route the indexer sees only peaks on rings in foridx (all of them here)
-    soundness(run, V, ubis, ix.gv if hasattr(ix, "gv") and ix.gv is not None else gv, minpks, float(ix.hkl_tol),
-              cell, hmax, route)
+    # the indexer sees only peaks on rings in foridx in the do_index route (all of them here) -> judge on ix.gv;
+    # truth bookkeeping needs the same rows, so map through exact equality of the rows
+    gv_seen = ix.gv if getattr(ix, "gv", None) is not None else gv
+    truth = None
+    if len(gv_seen) == len(gv) and np.array_equal(gv_seen, gv):
+        truth = (UBs, gid, noise)
+    else:
+        key = {tuple(row): i for i, row in enumerate(gv.tolist())}
+        rows = [key.get(tuple(row)) for row in np.asarray(gv_seen).tolist()]
+        if all(q is not None for q in rows):
+            rows = np.array(rows, int)
+            truth = (UBs, gid[rows], noise[rows])
+    if truth is None:
+        run.count("truth_rows_unmapped")
+    cons = soundness(run, V, ubis, passes, np.asarray(gv_seen, float), cell, hmax, route, truth)
     if len(ix.scores) != len(ix.ubis):
         V(route + ":scores-length", "len(scores) != len(ubis)")
+    if mode == "hiorder":
+        run.count("hiorder_scenarios")
     # completeness on ideal data
     if not noisy and not boundary:
+        # every pass asks for <= the first pass' minpks at >= its tolerance: a grain of ideal data must be found
+        tolmin = min(t for _, t in passes) if passes else hkl_tol
         matched = [[] for _ in UBs]
         for k, u in enumerate(ubis):
             for g, UB in enumerate(UBs):
@@ -200,7 +396,7 @@ def one_scenario(run, seed, idx, mods, noisy):
                 # the reported matrix is least-squares refined on every peak it indexes, which
                 # includes accidental peaks of the other grains (error < hkl_tol), so it may
                 # sit up to a fraction of hkl_tol from the generating lattice
-                if np.abs(M - Mi).max() < 0.5 * hkl_tol and abs(np.linalg.det(Mi) - 1) < 1e-9:
+                if np.abs(M - Mi).max() < 0.5 * passes[k][1] and abs(np.linalg.det(Mi) - 1) < 1e-9:
                     matched[g].append(k)
         run.count("truth_grains_checked", ngr)
         for g, m in enumerate(matched):
@@ -218,14 +414,19 @@ def check(run, replay=None):
     mods = (indexing, unitcell, columnfile, parameters)
     if replay is not None:
         cs = replay["case"]
-        one_scenario(run, replay["seed"], cs["index"], mods, cs["noisy"])
+        one_scenario(run, replay["seed"], cs["index"], mods, cs.get("mode", cs["noisy"]))
         run.nontrivial.update(["replay", "replay2"])
         return
-    ni, nn = (24, 16) if run.tier == "quick" else (400, 300)
+    ni, nn, nh = (30, 24, 14) if run.tier == "quick" else (500, 400, 250)
     for i in range(ni):
-        one_scenario(run, run.seed, i, mods, False)
+        one_scenario(run, run.seed, i, mods, "ideal")
     for i in range(nn):
-        one_scenario(run, run.seed, i, mods, True)
+        one_scenario(run, run.seed, i, mods, "noisy")
+    for i in range(nh):
+        one_scenario(run, run.seed, i, mods, "hiorder")
     run.require_counter("reported_ubis_judged", 20)
     run.require_counter("truth_grains_checked", 20)
     run.require_counter("boundary_minpks_scenarios", 3)
+    run.require_counter("hiorder_scenarios", 8)
+    run.require_counter("multi_pass_runs", 3)
+    run.require_counter("cell_bound_evaluated", 20)
